@@ -352,10 +352,30 @@ def summary_is_max(eff, cell, payload):
         return "the maximum is taken over %s, the rows are dumped over %s" % (
             [[sym.show(a) if isinstance(a, tuple) else a for a in r] for r in rng], [[sym.show(a) if isinstance(a, tuple) else a for a in r] for r in nest])
     V = x["val"]
+    # the update is  if (v > cur) cur = v   or, unguarded,  cur = (v > cur) ? v : cur  /  (cur < v) ? v : cur  /
+    # (cur >= v) ? cur : v  /  std::max(cur, v)   with v a row's variance
+    if not guards:
+        W = V
+        while W[0] == "cast":
+            W = W[2]
+        if W[0] == "cond" and W[1][0] == "fop" and W[1][1] in (">", "<", ">=", "<="):
+            c_, a_, b_ = W[1], W[2], W[3]
+            lhs, rhs = c_[2], c_[3]
+            if c_[1] in ("<", "<="):
+                lhs, rhs = rhs, lhs                    # lhs > rhs  (or >=)
+            v_ = a_ if b_ == cell else b_ if a_ == cell else None
+            if v_ is not None and v_[0] == "fld" and v_[2] == "current_variance" and {lhs, rhs} == {v_, cell} and \
+                    ((a_ == lhs and b_ == rhs)):       # picks the larger operand
+                return None
+            return "the running value is %s: not the larger of the running maximum and a row's variance" % sym.show(V)[:160]
+        if W[0] == "call" and W[1] in ("std::max", "max", "fmax", "std::fmax") and len(W[2]) == 2 and cell in W[2]:
+            v_ = W[2][0] if W[2][1] == cell else W[2][1]
+            if v_[0] == "fld" and v_[2] == "current_variance":
+                return None
     if V[0] != "fld" or V[2] != "current_variance":
         return "the running value is %s, not a row's variance" % sym.show(V)
     want_guard = ("fop", ">", V, cell)
-    if guards != [want_guard]:
+    if guards != [want_guard] and guards != [("fop", "<", cell, V)]:
         return "the update is guarded by %s, not by 'row variance > running maximum'" % [sym.show(g) for g in guards]
     return None
 
